@@ -22,11 +22,11 @@ Full statement / proved / missing
   Integer, Float, Boolean, Timespan, String (all three forms), Enum, Pattern, Regexp, Binary, Collection, Array, Hash, Tuple, Struct,
   Variant, Optional, NotUndef, Sensitive, Object, the built-in recursive aliases Data and RichData (as receivers and on the right-hand
   side, through the specialised `asgToArr` / `asgToHash` members), arbitrarily nested, and `Type[T]` for `T` in
-  the stage-1 fragment of transitivity (`Ty.TF`, see C03: soundness for `Type[..]` IS transitivity `X ⊒ Y ⊒ u`, and is obtained from
+  the proved fragment of transitivity (`Ty.TF`, see C03: soundness for `Type[..]` IS transitivity `X ⊒ Y ⊒ u`, and is obtained from
   `C03_trans_partial`); types used as values are then well-formed members of `Ty.TF`, and container lengths fit an int64 as Go's do
   (`Val.TyOK`).
 * missing, and why:
-  - `Type[T]` with Tuple / Struct / Data inside `T` (outside stage 1 of transitivity).  `Iterable`'s instance rule asks an assignability
+  - `Type[T]` with Struct / Data inside `T` (outside the proved fragment of transitivity).  `Iterable`'s instance rule asks an assignability
     question about an INFERRED type and is genuinely unsound in the code: witnesses
     `C01_full_fails_iterable_elem` (inferred element type wider than any Variant member; known finding C01-iterable-inferred-elem)
     and `C01_full_fails_iterable_binary` (Iterable accepts Binary, whose values are not Iterable instances; C01-iterable-binary).
